@@ -112,7 +112,9 @@ func model(cfg config) porcupine.Model {
 	}
 	return porcupine.Model{
 		Init: func() interface{} {
-			s := state{members: map[string]bool{}}
+			// "with autolock the group starts locked": the lock is applied when the group
+			// object is created, which is observable before the first join is decided
+			s := state{members: map[string]bool{}, locked: cfg.Autolock}
 			return encode(s)
 		},
 		Step: func(st, in, out interface{}) (bool, interface{}) {
@@ -442,6 +444,201 @@ func runHistory(run *vk.Run, idx uint64) {
 	os.Remove(filepath.Join(group.Directory, name+".json"))
 }
 
+// registry clause: AddClient looks the group up (group.Add) and only then takes the
+// group's lock; group.Update() expires empty groups that have been idle for longer than
+// max-history-age.  An expiry between the two steps must not leave a member in a Group
+// object that is no longer registered.  Oracle at quiescence: every client whose join was
+// acknowledged and that has not left is a member of group.Get(name), and no id is a member
+// of two objects of one name.
+func registryPhase(run *vk.Run, round uint64, n int) {
+	cfg := config{}
+	var names []string
+	for i := 0; i < n; i++ {
+		name := fmt.Sprintf("reg%d-%d", round, i)
+		names = append(names, name)
+		d := map[string]any{"max-history-age": 1, "wildcard-user": map[string]any{"password": map[string]any{"type": "wildcard"}, "permissions": "present"}}
+		(&vsrv.Server{GroupsDir: group.Directory}).WriteGroup(name, d)
+		group.Add(name, nil) // registered, empty, timestamp = now
+	}
+	_ = cfg
+	time.Sleep(1150 * time.Millisecond) // all of them may expire now
+	if round == 0 {
+		// self-test of the phase: an Update with nobody joining expires the first group
+		probe := names[0]
+		group.Update()
+		if group.Get(probe) == nil {
+			run.Count("registry_expiry_selftest_ok", 1)
+		} else {
+			run.Count("registry_expiry_selftest_failed", 1)
+		}
+		group.Add(probe, nil)
+	}
+	var stop atomic.Bool
+	var uwg sync.WaitGroup
+	startUpdaters := func() {
+		for u := 0; u < 3; u++ {
+			uwg.Add(1)
+			go func() {
+				defer uwg.Done()
+				for !stop.Load() {
+					group.Update()
+				}
+			}()
+		}
+	}
+	type joined struct {
+		c    *fakeClient
+		g    *group.Group
+		name string
+	}
+	var mu sync.Mutex
+	var js []joined
+	var wg sync.WaitGroup
+	startUpdaters()
+	for i, name := range names {
+		wg.Add(1)
+		go func(i int, name string) {
+			defer wg.Done()
+			r := run.Rand(3, round, uint64(i))
+			time.Sleep(time.Duration(r.IntN(120000)) * time.Microsecond)
+			c := &fakeClient{id: fmt.Sprintf("%s-c", name)}
+			if group.Get(name) == nil {
+				run.Count("registry_groups_already_expired_at_join", 1)
+			} else {
+				run.Count("registry_groups_still_registered_at_join", 1)
+			}
+			g, err := group.AddClient(name, c, group.ClientCredentials{Username: strp("u"), Password: "x"})
+			if err != nil {
+				run.Count("registry_join_errors", 1)
+			}
+			if err == nil {
+				c.setGroup(g)
+				mu.Lock()
+				js = append(js, joined{c, g, name})
+				mu.Unlock()
+			}
+		}(i, name)
+	}
+	wg.Wait()
+	stop.Store(true)
+	uwg.Wait()
+	run.Eval(int64(len(names)))
+	for _, j := range js {
+		reg := group.Get(j.name)
+		found := false
+		if reg != nil {
+			for _, c := range reg.GetClients(nil) {
+				if c.Id() == j.c.id {
+					found = true
+				}
+			}
+		}
+		if !found {
+			state := "the name is not registered at all"
+			if reg != nil && reg != j.g {
+				state = "the registered object is a different one"
+			}
+			run.Violation("member-of-unregistered-group", fmt.Sprintf("the join of %s to %s was acknowledged, yet it is not a member of the registered group: %s (the group expired between the lookup and the insertion)", j.c.id, j.name, state), map[string]any{"registry_round": round})
+		} else {
+			run.Count("registry_joins_found_in_registered_group", 1)
+		}
+		group.DelClient(j.c)
+	}
+	for _, name := range names {
+		os.Remove(filepath.Join(group.Directory, name+".json"))
+	}
+	run.Count("registry_rounds", 1)
+}
+
+// observeThenJoin is a directed family for the autolock clause "locked again as soon as
+// its last operator leaves, before any later join is evaluated": an operator leaves an
+// unlocked autolock group while an unperturbed observer polls the member list and, the
+// moment it has SEEN the operator gone, joins as a non-operator.  The read is part of the
+// history, so that join is a "later join" and has no legal linearisation if it is admitted.
+func observeThenJoin(run *vk.Run, idx uint64) {
+	cfg := config{Autolock: true}
+	name := fmt.Sprintf("otj%d-%d", idx, groupSeq.Add(1))
+	writeGroup(name, cfg)
+	rec := &recorder{}
+	op := &fakeClient{id: name + "-op-0"}
+	g, err := group.AddClient(name, op, group.ClientCredentials{Username: strp("op1"), Password: "pw-op1"})
+	if err != nil {
+		run.Inconclusive("observe-then-join: operator could not join: " + err.Error())
+		return
+	}
+	op.setGroup(g)
+	g.SetLocked(false, "")
+	// the history starts here: state = {op}, unlocked
+	rec.do(0, input{Op: "join", ID: op.id, IsOp: true}, func() output { return output{OK: true} })
+	rec.do(0, input{Op: "unlock"}, func() output { return output{} })
+	var wg sync.WaitGroup
+	wg.Add(2)
+	go func() {
+		defer wg.Done()
+		rec.do(1, input{Op: "leave", ID: op.id}, func() output {
+			group.DelClient(op)
+			op.setGroup(nil)
+			return output{}
+		})
+	}()
+	go func() {
+		defer wg.Done()
+		vsync.SetQuiet(true)
+		defer vsync.SetQuiet(false)
+		for k := 0; k < 200000; k++ {
+			var ids []string
+			out := rec.do(2, input{Op: "members?"}, func() output {
+				for _, c := range g.GetClients(nil) {
+					ids = append(ids, c.Id())
+				}
+				return output{Members: membersString(ids)}
+			})
+			if out.Members == "" {
+				c := &fakeClient{id: name + "-nop-1"}
+				rec.do(2, input{Op: "join", ID: c.id}, func() output {
+					gg, err := group.AddClient(name, c, group.ClientCredentials{Username: strp("guest"), Password: "x"})
+					if err != nil {
+						return output{OK: false, Err: err.Error()}
+					}
+					c.setGroup(gg)
+					return output{OK: true}
+				})
+				return
+			}
+		}
+	}()
+	wg.Wait()
+	// keep only the last few reads: thousands of identical reads add nothing
+	ops := rec.ops
+	if len(ops) > 40 {
+		var keep []porcupine.Operation
+		for i, o := range ops {
+			if o.Input.(input).Op != "members?" || i >= len(ops)-6 {
+				keep = append(keep, o)
+			}
+		}
+		ops = keep
+	}
+	run.Eval(int64(len(ops)))
+	res, _ := porcupine.CheckOperationsVerbose(model(cfg), ops, 30*time.Second)
+	if res == porcupine.Illegal {
+		var hist []string
+		sort.Slice(ops, func(i, j int) bool { return ops[i].Call < ops[j].Call })
+		for _, o := range ops {
+			hist = append(hist, fmt.Sprintf("[%d,%d] thread %d: %+v -> %+v", o.Call, o.Return, o.ClientId, o.Input, o.Output))
+		}
+		run.Violation("not-linearizable:autolock:join-after-operator-seen-gone", "a non-operator that had SEEN the last operator gone from an autolock group was admitted: the group was not locked again before the later join was evaluated", map[string]any{"observe_then_join_index": idx, "history": hist})
+	} else if res == porcupine.Ok {
+		run.Count("observe_then_join_histories_linearizable", 1)
+	}
+	if gg := group.Get(name); gg != nil {
+		for _, c := range gg.GetClients(nil) {
+			group.DelClient(c)
+		}
+	}
+	os.Remove(filepath.Join(group.Directory, name+".json"))
+}
+
 func containsClient(cs []*fakeClient, id string) bool {
 	for _, c := range cs {
 		if c.id == id {
@@ -508,6 +705,32 @@ func main() {
 	}
 	vsync.Enable(30, uint64(run.Seed), true)
 	wg.Wait()
+	if n > 1 {
+		vsync.SetPerturb(90)
+		var owg sync.WaitGroup
+		var onext atomic.Uint64
+		total := uint64(run.Pick(1500, 40000))
+		for w := 0; w < 4; w++ {
+			owg.Add(1)
+			go func() {
+				defer owg.Done()
+				for {
+					i := onext.Add(1) - 1
+					if i >= total {
+						return
+					}
+					observeThenJoin(run, i)
+				}
+			}()
+		}
+		owg.Wait()
+		run.FloorCounter("observe_then_join_histories_linearizable", int64(total*9/10))
+		vsync.SetPerturb(60)
+		for round := 0; round < run.Pick(3, 40); round++ {
+			registryPhase(run, uint64(round), 160)
+		}
+		run.FloorCounter("registry_joins_found_in_registered_group", 50)
+	}
 	ev, edges, _ := vsync.Stats()
 	run.Count("lock_events", ev)
 	run.Set("lock_order_edges", edges)
